@@ -6,7 +6,8 @@ from rangelib import *
 from abacuslib import *
 
 RULE = ("honest establish and pay proofs (merchant with known discrete logs) re-verified under every single-component "
-        "substitution of their verification tuple: another key, other range parameters, other revocation-commitment "
+        "substitution of their verification tuple: another key, the same key with ONE public element replaced (one per group of "
+        "positions g1, Y_i, g~, X~, Y~_i; thorough: all thirteen), other range parameters, other revocation-commitment "
         "parameters, channel id (fresh, one bit flipped, and the alias id + q of known finding F5), balances +-1, nonce "
         "+-1 / fresh, amount +-1 / fresh, context fresh and differing in single bytes; replies (closing signatures, pay "
         "tokens) replayed between two sessions of one channel, between channels, between merchants and between "
